@@ -1,1 +1,111 @@
-def main : IO Unit := IO.println "driver C02: not built yet"
+import VncModel.Basic.Proto
+import VncModel.Update.Model
+/-! Line-protocol driver for the update-scheduling model (C02). Same script as harness/c02.c. -/
+open VncModel VncModel.Proto VncModel.Rgn VncModel.Update
+
+structure DState where
+  scr : Screen := { width := 0, height := 0, cursor := ⟨0, 0, 0, 0⟩, cursorX := 0, cursorY := 0,
+                    progSlice := 0, maxRects := 0 }
+  haveScreen : Bool := false
+  clients : List (Nat × Client) := []
+
+def showRect (r : Rect) : String := s!"{r.x1},{r.y1},{r.x2},{r.y2}"
+
+def showRegion (r : Region) : String :=
+  "[" ++ ";".intercalate ((r.rects false false).map showRect) ++ "]"
+
+def showCopy (c : CopyRectMsg) : String := s!"{c.x},{c.y},{c.w},{c.h},{c.srcX},{c.srcY}"
+
+def getClient (s : DState) (n : Nat) : Option Client :=
+  (s.clients.find? (fun p => p.1 == n)).map (·.2)
+
+def setClient (s : DState) (n : Nat) (c : Client) : DState :=
+  { s with clients := s.clients.map (fun p => if p.1 == n then (n, c) else p) }
+
+def mapClients (s : DState) (f : Client → Client) : DState :=
+  { s with clients := s.clients.map (fun p => (p.1, if p.2.isOpen then f p.2 else p.2)) }
+
+def ints? (l : List String) : Option (List Int) := l.mapM parseInt?
+
+/-- region built the way the harness builds it: first rectangle, then sraRgnOr of the others -/
+def orRects (acc : Region) : List Int → Option Region
+  | [] => some acc
+  | a :: b :: c :: d :: more => orRects (acc.or (Region.rect a b c d)) more
+  | _ => none
+
+def buildRegion : List Int → Option Region
+  | x1 :: y1 :: x2 :: y2 :: rest => orRects (Region.rect x1 y1 x2 y2) rest
+  | _ => none
+
+def dstep (s : DState) (toks : List String) : DState × List String :=
+  match toks with
+  | ["screen", w, h, ps, mr] =>
+    match ints? [w, h, ps, mr] with
+    | some [w, h, ps, mr] =>
+      ({ s with scr := { s.scr with width := w, height := h, progSlice := ps, maxRects := mr },
+                haveScreen := true }, ["ok"])
+    | _ => (s, ["bad-op"])
+  | ["cursor", w, h, xh, yh] =>
+    match ints? [w, h, xh, yh] with
+    | some [w, h, xh, yh] => ({ s with scr := { s.scr with cursor := ⟨w, h, xh, yh⟩ } }, ["ok"])
+    | _ => (s, ["bad-op"])
+  | ["client", n] =>
+    match n.toNat? with
+    | some n =>
+      if !s.haveScreen || (getClient s n).isSome then (s, ["bad-op"]) else
+      ({ s with clients := s.clients ++ [(n, newClient s.scr)] }, ["ok"])
+    | none => (s, ["bad-op"])
+  | ["setenc", n, cr, cs] =>
+    match n.toNat?, ints? [cr, cs] with
+    | some n, some [cr, cs] =>
+      match getClient s n with
+      | some c => (setClient s n (setEncodings s.scr c (cr != 0) (cs != 0)), ["ok"])
+      | none => (s, ["bad-op"])
+    | _, _ => (s, ["bad-op"])
+  | ["draw", x1, y1, x2, y2, _seed] | ["mark", x1, y1, x2, y2] =>
+    match ints? [x1, y1, x2, y2] with
+    | some [x1, y1, x2, y2] =>
+      match markClip s.scr x1 y1 x2 y2 with
+      | some (a, b, c, d) => (mapClients s (fun cl => markRegion cl (Region.rect a b c d)), ["ok"])
+      | none => (s, ["ok"])
+    | _ => (s, ["bad-op"])
+  | "copyrgn" :: dx :: dy :: rest =>
+    match ints? [dx, dy], ints? rest with
+    | some [dx, dy], some coords =>
+      match buildRegion coords with
+      | some rg => (mapClients s (fun cl => scheduleCopy s.scr cl rg dx dy), ["ok"])
+      | none => (s, ["bad-op"])
+    | _, _ => (s, ["bad-op"])
+  | ["req", n, incr, x, y, w, h] =>
+    match n.toNat?, ints? [incr, x, y, w, h] with
+    | some n, some [incr, x, y, w, h] =>
+      match getClient s n with
+      | some c => (setClient s n (request s.scr c (incr != 0) x y w h), ["ok"])
+      | none => (s, ["bad-op"])
+    | _, _ => (s, ["bad-op"])
+  | ["update", n] =>
+    match n.toNat? with
+    | some n =>
+      match getClient s n with
+      | some c =>
+        let (c', sent) := updateClient s.scr c
+        let line := match sent with
+          | none => "none"
+          | some m =>
+            s!"fbu cs={if m.cursorShape then 1 else 0} copies=[" ++
+              ";".intercalate (m.copies.map showCopy) ++ "] raws=[" ++
+              ";".intercalate (m.raws.map showRect) ++ "]"
+        (setClient s n c', [line])
+      | none => (s, ["bad-op"])
+    | none => (s, ["bad-op"])
+  | ["state", n] =>
+    match n.toNat? with
+    | some n =>
+      match getClient s n with
+      | some c =>
+        (s, [s!"M={showRegion c.M} C={showRegion c.C} R={showRegion c.R} d={c.dx},{c.dy}"])
+      | none => (s, ["bad-op"])
+    | none => (s, ["bad-op"])
+  | _ => (s, ["bad-op"])
+
+def main : IO Unit := runDriver ({} : DState) dstep
